@@ -29,7 +29,9 @@ PROP = {'gen': [],
                'indexing, nearest) plugged in (C05_nopanic_with_reduction; f32 evaluation itself is not modelled and is covered by the '
                'exhaustive c20sweep run, which reports encoder panics). DEC mode numbers, KEYBOARD_LEVEL and '
                'grey-depth SGR codes are regenerated from the source each run and the theorems re-checked; the model is tied to the '
-               'code by a differential run (single commands and streams through one encoder object).',
+               'code by a differential run (single commands, and streams through ONE encoder object with deliberate repetitions of stateful '
+               'commands around Reset / alt-screen / keyboard-level / mode / face changes; for streams the FINAL TERMINAL STATE from clean and '
+               'dirty initial states is compared, C05_stream_one_encoder: one encoder object = concatenation of self-contained encodings).',
  'level_note': 'Trusted: Coq kernel + vm_compute; translate/enc_tables.py; hand-written model Encoder/Encode.v validated by the '
                'correspondence run; the VT/xterm interpreter Encoder/VT.v and the denotation Encoder/Denote.v ARE the specification '
                '(written from ECMA-48, the DEC parser state machine, xterm ctlseqs, the kitty keyboard protocol). Palette index / grey '
@@ -51,7 +53,8 @@ PROP = {'gen': [],
                   HARNESS],
  'assumptions': ['terminal in UTF-8 mode (C1 controls recognised as decoded code points); a zero or omitted numeric parameter of '
                  'cursor/erase/scroll functions means 1 (xterm); SGR 22 = normal intensity, 21 = double underline (ECMA-48)',
-                 'domain of the meaning theorems (cmd_ok): usize / i32 ranges, colour channels < 256, titles without control '
+                 'domain of the meaning theorems (cmd_ok): usize / i32 ranges, colour channels < 256, FaceAttrs underline style code 0..5 '
+                 '(codes 6 and 7 are not constructible through the public API), titles without control '
                  'characters (Unicode Cc), Char other than the seven characters that open a control sequence or string (ESC, C1 DCS SOS '
                  'CSI OSC PM APC: known finding C05-char-introducer, C05_char_introducer_refuted); Raw means its bytes '
                  'and is excluded from self-containedness',
